@@ -10,7 +10,28 @@ VSF = dict(unit="vsfld_u.c", file="hdf/src/vsfld.c",
 for ac, nus in ((1, 1), (2, 1), (2, 2), (3, 2)):
     ob(f"VSsetfields_ac{ac}_u{nus}", ["C07", "C20"], entry="h_VSsetfields_new", enforce="VSsetfields", mode="bounded",
        bound=f"{ac} requested field(s), {nus} user-defined symbol(s) + the 9 predefined ones, names <= 2 characters",
-       overflow=True, unwind=11, cex_unwind=11, defines=["H4V_SMALL_STR", "NMLEN=2", f"SF_AC={ac}", f"SF_NUSYM={nus}"],
-       timeout=900, tier="quick" if ac < 3 else "thorough", **VSF)
+       overflow=True, unwind=11, cex_unwind=14, defines=["H4V_SMALL_STR", "NMLEN=2", f"SF_AC={ac}", f"SF_NUSYM={nus}"],
+       timeout=200, tier="quick" if ac < 3 else "thorough", **VSF)
 ob("VSsetfields_gate", ["C07", "C20"], entry="h_VSsetfields_gate", enforce="VSsetfields", overflow=True,
-   defines=["H4V_SMALL_STR", "NMLEN=2"], unwind=4, cex_unwind=4, **VSF)
+   defines=["H4V_SMALL_STR", "NMLEN=2"], unwind=1, cex_unwind=2, timeout=200, **VSF)  # unwind 1: the field loops are unreachable (unwinding assertions on)
+ob("VSsetfields_badkey", ["C07"], entry="h_VSsetfields_badkey", enforce="VSsetfields", mode="proved-finite",
+   defines=["H4V_SMALL_STR", "NMLEN=2"], unwind=11, cex_unwind=11, timeout=200, **VSF)
+ob("VSfdefine_redef", ["C07"], entry="h_VSfdefine_redef", enforce="VSfdefine", mode="bounded",
+   bound="2 user-defined symbols, names <= 1 character (exact strcmp/strdup)", overflow=True,
+   defines=["H4V_SMALL_STR", "NMLEN=1", "RD_NUSYM=2"], unwind=5, cex_unwind=14, timeout=300, **VSF)
+
+# ----------------------------------------------------------------------------- vrw.c (log mode)
+VRL = dict(unit="vrw_u.c", file="hdf/src/vrw.c", overflow=True, unwind=6, cex_unwind=6, timeout=150, mode="bounded",
+           trusted=["Hread/Hwrite: log (position, length), whole transfers or FAIL (nondeterministic call; beyond the element; beyond 2^31-1)",
+                    "DFKconvert: logs its arguments, checks both footprints (user buffer, transfer buffer)",
+                    "Hseek/Hinquire: ghost position; vexistvs: ghost answer; HAatom_*: harness-built instance (constants)"])
+LAY = {1: "2 fields 3xuint8+2xuint16 (7-byte records)", 2: "1 field 3xint32 (12-byte records)",
+       3: "2 fields uint8+int32 (5-byte records)", 4: "1 field uint8 (1-byte records)"}
+RLS = {0: "all fields", 1: "subset {f1}", 2: "permutation {f1,f0}", 3: "subset {f0}"}
+for vl in (1, 2, 3):
+    ob(f"VSwrite_book_L{vl}", ["C07", "C20"], entry="h_VSwrite_log", enforce="VSwrite",
+       defines=["VRW_LOG", f"VL={vl}"], bound=f"layout {LAY[vl]}; FULL_INTERLACE; nelt up to 4 transfer-buffer chunks (real VDATA_BUFFER_MAX)", **VRL)
+for vl, rl in ((1, 0), (1, 1), (1, 2), (2, 0), (3, 1), (3, 3)):
+    ob(f"VSread_chunk_L{vl}_R{rl}", ["C07"], entry="h_VSread_log", enforce="VSread",
+       defines=["VRW_LOG", f"VL={vl}", f"RL={rl}"],
+       bound=f"layout {LAY[vl]}, read list {RLS[rl]}; FULL_INTERLACE; nelt up to 4 transfer-buffer chunks (real VDATA_BUFFER_MAX)", **VRL)
